@@ -149,13 +149,12 @@ termination_by s.rest.length
 
 def BATCH : Nat := 100
 
-/-- the reader thread: batches of 100; an error other than EOF / InvalidData discards the
-    partial batch being filled (`get_array_batch` returns `Err`); finally the scanner is
-    dropped and flushes its counters. -/
+/-- the reader thread: batches of 100 (`get_array_batch`): every error kind the scanner can
+    produce (end of input, invalid offset, short read while skipping on a pipe) ends the batch
+    being filled and keeps the packets already loaded, so batching is invisible in the packet
+    sequence; finally the scanner is dropped and flushes its counters. -/
 def scanAll (cfg : ScanCfg) (input : Bytes) : ScanResult :=
   let r := scanLoop cfg { rest := input } [] []
-  let pk := if r.endedBy == .other then r.packets.take (r.packets.length / BATCH * BATCH) else r.packets
-  { r with packets := pk,
-           msgs := r.msgs ++ [.rdhSeen r.final.seen, .rdhFiltered r.final.filtered, .payloadSize r.final.payload] }
+  { r with msgs := r.msgs ++ [.rdhSeen r.final.seen, .rdhFiltered r.final.filtered, .payloadSize r.final.payload] }
 
 end FastPasta
